@@ -32,6 +32,10 @@ var solvers = []solverSpec{
 		return []string{"cvc5", fmt.Sprintf("--tlimit=%d", t*1000), "--lang=smt2", f}
 	}},
 	{"z3", func(f string, t int) []string { return []string{"z3", fmt.Sprintf("-T:%d", t), f} }},
+	// same solver, more eager E-matching: decides some quantified goals the default gives up on
+	{"z3-new-eager", func(f string, t int) []string {
+		return []string{"z3-new", fmt.Sprintf("-T:%d", t), "smt.qi.eager_threshold=100", f}
+	}},
 }
 
 func runSolver(s solverSpec, file string, timeoutS int) (string, string, float64) {
@@ -59,6 +63,9 @@ func runSolver(s solverSpec, file string, timeoutS int) (string, string, float64
 
 // solveOne runs the portfolio on one obligation file. wantModel: rerun with model on sat.
 func solveOne(file string, timeoutS int, all bool) *SolveResult {
+	if !all {
+		return solveRace(file, timeoutS)
+	}
 	res := &SolveResult{File: file, Status: "unknown"}
 	var total float64
 	for _, s := range solvers {
@@ -125,7 +132,11 @@ func (e *Engine) solveAll(outDir string, results []*FuncResult, timeoutS int, al
 		go func() {
 			defer wg.Done()
 			for j := range ch {
-				j.res = solveOne(j.file, timeoutS, all)
+				if j.o.ExpectSat {
+					j.res = solveCover(j.file)
+				} else {
+					j.res = solveOne(j.file, timeoutS, all)
+				}
 				if j.res.Status == "sat" && !j.o.ExpectSat {
 					// get a model
 					mf := strings.TrimSuffix(j.file, ".smt2") + ".model.smt2"
@@ -146,4 +157,99 @@ func (e *Engine) solveAll(outDir string, results []*FuncResult, timeoutS int, al
 	close(ch)
 	wg.Wait()
 	return jobs
+}
+
+// solveCover: a vacuity check. unsat from any solver means vacuous; sat/unknown/timeout are fine.
+func solveCover(file string) *SolveResult {
+	res := &SolveResult{File: file, Status: "unknown"}
+	for _, s := range solvers[:2] {
+		st, out, el := runSolver(s, file, 3)
+		res.Seconds += el
+		res.Tried = append(res.Tried, fmt.Sprintf("%s:%s:%.2fs", s.name, st, el))
+		if st == "sat" || st == "unsat" {
+			res.Status, res.Solver, res.Output = st, s.name, out
+			return res
+		}
+		if st == "error" {
+			res.Status, res.Output = "error", out
+		}
+	}
+	if res.Status == "error" {
+		// an error from one solver with no verdict from the other: report it
+		return res
+	}
+	return res
+}
+
+// solveRace: z3-new alone for a short slice; if undecided, all three solvers race for the
+// full timeout and the first definitive answer wins.
+func solveRace(file string, timeoutS int) *SolveResult {
+	res := &SolveResult{File: file, Status: "unknown"}
+	t0 := time.Now()
+	st, out, el := runSolver(solvers[0], file, 2)
+	res.Tried = append(res.Tried, fmt.Sprintf("%s:%s:%.2fs", solvers[0].name, st, el))
+	if st == "sat" || st == "unsat" {
+		res.Status, res.Solver, res.Output, res.Seconds = st, solvers[0].name, out, el
+		return res
+	}
+	res.Output = out
+	type ans struct {
+		name, st, out string
+		el            float64
+	}
+	ch := make(chan ans, len(solvers))
+	ctx, cancel := context.WithCancel(context.Background())
+	defer cancel()
+	for _, s := range solvers {
+		go func(s solverSpec) {
+			args := s.args(file, timeoutS)
+			c2, cancel2 := context.WithTimeout(ctx, time.Duration(timeoutS+5)*time.Second)
+			defer cancel2()
+			cmd := exec.CommandContext(c2, args[0], args[1:]...)
+			var buf bytes.Buffer
+			cmd.Stdout = &buf
+			cmd.Stderr = &buf
+			t1 := time.Now()
+			_ = cmd.Run()
+			text := buf.String()
+			first := strings.TrimSpace(strings.SplitN(text, "\n", 2)[0])
+			st := "error"
+			switch first {
+			case "unsat", "sat", "unknown":
+				st = first
+			default:
+				if strings.Contains(text, "timeout") || c2.Err() != nil {
+					st = "timeout"
+				}
+			}
+			ch <- ans{s.name, st, text, time.Since(t1).Seconds()}
+		}(s)
+	}
+	sawTimeout, sawError := false, false
+	for range solvers {
+		a := <-ch
+		res.Tried = append(res.Tried, fmt.Sprintf("%s:%s:%.2fs", a.name, a.st, a.el))
+		if a.st == "sat" || a.st == "unsat" {
+			res.Status, res.Solver, res.Output = a.st, a.name, a.out
+			cancel()
+			break
+		}
+		if a.st == "timeout" {
+			sawTimeout = true
+		}
+		if a.st == "error" {
+			sawError = true
+			res.Output = a.out
+		}
+	}
+	if res.Solver == "" {
+		switch {
+		case sawTimeout:
+			res.Status = "timeout"
+		case sawError:
+			res.Status = "error"
+		}
+	}
+	res.Seconds = time.Since(t0).Seconds()
+	return res
 }
